@@ -647,6 +647,68 @@ def _fix_names(x):
             _fix_names(v)
 
 
+def _parse_value(t, adts):
+    """recursive-descent reader of rustc's user-facing rendering of a constant; → (value, rest of the text)"""
+    import re as _re
+    t = t.lstrip()
+    if t.startswith("&"):
+        return _parse_value(t[1:], adts)
+    m = _re.match(r"-?\d+(?:_[iu](?:8|16|32|64|128|size))?", t)
+    if m and not _re.match(r"[A-Za-z]", t[m.end():m.end() + 1] or " "):
+        return int(m.group(0).split("_")[0]), t[m.end():]
+    if t.startswith("true") and not _re.match(r"\w", t[4:5] or " "):
+        return True, t[4:]
+    if t.startswith("false") and not _re.match(r"\w", t[5:6] or " "):
+        return False, t[5:]
+    if t[0] in "[(":
+        close = "]" if t[0] == "[" else ")"
+        items, t = _parse_list(t[1:], close, adts)
+        return ("list", items), t
+    m = _re.match(r"[A-Za-z_][A-Za-z0-9_]*(?:::[A-Za-z_][A-Za-z0-9_]*)*", t)
+    if not m:
+        raise ValueError(t[:40])
+    path, t = m.group(0), t[m.end():]
+    fields = []
+    if t.startswith("("):
+        fields, t = _parse_list(t[1:], ")", adts)
+    elif t.lstrip().startswith("{"):
+        t = t.lstrip()[1:]
+        while True:
+            t = t.lstrip()
+            if t.startswith("}"):
+                t = t[1:]
+                break
+            m2 = _re.match(r"([A-Za-z_][A-Za-z0-9_]*|\d+)\s*:", t)
+            if not m2:
+                raise ValueError(t[:40])
+            v, t = _parse_value(t[m2.end():], adts)
+            fields.append(v)
+            t = t.lstrip()
+            if t.startswith(","):
+                t = t[1:]
+    if path in adts:
+        vs = adts[path].get("variants") or []
+        return ("adt", path, vs[0]["name"] if len(vs) == 1 else None, fields), t
+    if "::" in path and path.rsplit("::", 1)[0] in adts:
+        return ("adt", path.rsplit("::", 1)[0], path.rsplit("::", 1)[1], fields), t
+    raise ValueError("unknown path %s" % path)
+
+
+def _parse_list(t, close, adts):
+    items = []
+    while True:
+        t = t.lstrip()
+        if t.startswith(close):
+            return items, t[1:]
+        v, t = _parse_value(t, adts)
+        items.append(v)
+        t = t.lstrip()
+        if t.startswith(","):
+            t = t[1:]
+        elif not t.startswith(close):
+            raise ValueError(t[:40])
+
+
 class Facts:
     def __init__(self, path):
         with open(path) as f:
@@ -733,6 +795,25 @@ class Facts:
                             return int(rv["op"]["int"])
                     return None
         return None
+
+    def const_tree(self, path):
+        """structured value of a `const` item as rustc prints it (`value_text` of the fact file): nested
+        ('adt', adt path, variant name, [fields]) / ('list', [items]) / int / bool — or None when it cannot be read"""
+        cache = self.__dict__.setdefault("_const_tree", {})
+        if path in cache:
+            return cache[path]
+        c = self.consts.get(path) or {}
+        out = None
+        txt = c.get("value_text")
+        if txt:
+            try:
+                out, rest = _parse_value(txt.strip(), self.adts)
+                if rest.strip():
+                    out = None
+            except (ValueError, IndexError):
+                out = None
+        cache[path] = out
+        return out
 
     def is_exported(self, path):
         """can code outside the crate name (and therefore call) this item?"""
